@@ -7,11 +7,26 @@ from common import run_model, run_impl, Err, enc
 from corr import MODEL_FAULTS, outcome_kind
 
 
+def _retry(f, attempts=4):
+    """the extracted runner is rebuilt under a lock by concurrently running checks; a call that
+    hits the moment the executable is being replaced is repeated"""
+    import time
+    from common import ensure_model_runner
+    for k in range(attempts):
+        try:
+            return f()
+        except RuntimeError:
+            if k == attempts - 1:
+                raise
+            time.sleep(3 + 4 * k)
+            ensure_model_runner()
+
+
 def run_both(ctx, name, reqs, jobs=8):
     """returns (diffs, model results, implementation results)"""
     if not reqs:
         return [], [], []
-    m = run_model(reqs, jobs=jobs)
+    m = _retry(lambda: run_model(reqs, jobs=jobs))
     i = run_impl(reqs, jobs=jobs)
     diffs, kinds, sizes, distinct = [], collections.Counter(), collections.Counter(), set()
     for k, (rq, a, b) in enumerate(zip(reqs, m, i)):
